@@ -1,22 +1,29 @@
 ID = "C08"
 LEVEL = "other"
-CONTRACT_MODULES = ["contracts.table_sel"]
-FUNCTIONS = ["Table._get_row_indices@value-range", "Table._get_row_indices@name-span"]
+CONTRACT_MODULES = ["contracts.table_sel", "contracts.table_cache", "contracts.table_regexp"]
+FUNCTIONS = ["Table._get_row_indices@value-range", "Table._get_row_indices@name-span", "Table._get_regexp_indices@scan", "Table._get_regexp_indices@combine", "Table._get_row_cache"]
 RAC = "rac/c08.py"
 RAC_BUDGET = {"quick": 60, "thorough": 900}
 DESIGN_REF = "DESIGN.md section 4, C08"
 TECHNIQUE = ("contract-based deductive verification of Table._get_row_indices one selector form per variant contract (value ranges and "
-             "name spans; pyvc selector engine with numpy-lite masks and np.where; z3) + run-time contracts against a reference selector "
+             "name spans; pyvc selector engine with numpy-lite masks and np.where; z3) and of Table._get_regexp_indices in two mechanically "
+             "extracted blocks (scan of the index column with fullmatch; combination per matched name through the proved _get_row_cache, sorted, "
+             "shifted; pyvc regexp engine with ghost position maps) + run-time contracts against a reference selector "
              "for every selector form, composition and many-name tables")
 TRUSTED = ["numpy-lite: element-wise comparison of a column with a bound as an uninterpreted order, & as conjunction, np.where(mask)[0] as the "
-           "ascending sequence of the mask's positions; numpy and re themselves", "Table._get_row_index is assumed by contract here (decided under C07)", "z3 / cvc5"]
+           "ascending sequence of the mask's positions; numpy and re themselves",
+           "regular expressions: pattern.fullmatch(name) is an uninterpreted predicate of (pattern, name); sorted(list of int) is an ascending "
+           "rearrangement; np.array(list) + k shifts element-wise; iteration over a set is an arbitrary duplicate-free enumeration", "Table._get_row_index is assumed by contract here (decided under C07)", "z3 / cvc5"]
 ASSUMPTIONS = ["selectors whose offset shifts outside the table are not constrained by the statement",
                "the constructs of the other selector forms are unreachable under each variant's precondition (obligations of kind `unreachable`)"]
-BOUNDED = ["regular-expression selectors with ::count and offsets (Table._get_regexp_indices: loop over a set of names -- checked at run time on "
-           "tables with 12..30 distinct names so that set order differs from table order), position lists, masks, rows[s1, s2] == rows[s1].rows[s2], "
+BOUNDED = ["the first three statements of Table._get_regexp_indices (splitting 'regexp::count<<offset', and the exact-name shortcut = known "
+           "finding K2) are outside the two proved blocks: run-time only; position lists, masks, rows[s1, s2] == rows[s1].rows[s2], "
            "rows.indices / rows.mask consistency: run-time only"]
 EXPLANATION = ("proved: for a value range lo:hi:'col' the result denotes exactly the rows with lo <= col <= hi (each bound optional, zero "
                "included), in ascending order, in all four bound combinations; for a name span a:b it is the slice from the position of a to "
-               "the position of b inclusive, either side optional")
-LEVEL_TEXT = "Mixed: two selector forms proved (31 obligations incl. unreachability of the other forms), the rest run-time contracts. Never claimed as proof."
+               "the position of b inclusive, either side optional; for a regular-expression selector (past the exact-name shortcut) "
+               "the result is, in ascending order and exactly, the rows whose index name is fully matched and -- with ::count -- whose occurrence "
+               "number is the requested one (negative counts from the last occurrence), each shifted by the offset: every row is tested, "
+               "each matched name contributes its one row through the proved _get_row_cache, whatever the iteration order of the name set")
+LEVEL_TEXT = "Mixed: value ranges, name spans and the two blocks of the regular-expression selector proved (z3); selector splitting, the exact-name shortcut (K2), lists, masks and composition are run-time contracts. Never claimed as proof."
 LEVEL_NOTE = "See TRUSTED / BOUNDED in the evidence file."
